@@ -124,6 +124,7 @@ def run(ctx):
             ctx.violation({"clause": j["why"], "functor": functor_of(cases[c["id"]], exprs, cmps, off)},
                           "%s : %s (implementation: %s)" % (text[c["id"]], j["why"], o.get("out", o.get("sols"))),
                           {"case": cases[c["id"]], "expr": exprs[c["id"]] if c["kind"] == "is" else None})
+    n_insp, n_judged = run_inspect(ctx)
     ctx.sample({"case": text[10], "impl": outs[10].get("out")})
     ctx.sample({"case": text[len(exprs) - 1], "impl": outs[len(exprs) - 1].get("out")})
     ctx.write_evidence("exploration", {
@@ -132,9 +133,92 @@ def run(ctx):
                 "(-2.5..3.5), all argument pairs; random expression trees of depth <= 3; the six comparisons; between/3 in "
                 "both modes; non-trivial = distinct case whose exact value is representable in quarters (judged)",
         "not_judged_unrepresentable": skipped, "functors": UN + BIN + CMP + ["between/3"],
+        "inspection_goals": n_insp, "inspection_goals_in_supported_modes": n_judged,
+        "inspection_builtins": ["functor/3", "arg/3", "=../2", "length/2", "succ/2", "plus/3", "var/1", "nonvar/1", "atom/1",
+                                "atomic/1", "number/1", "integer/1", "float/1", "compound/1", "callable/1", "is_list/1", "ground/1"],
     }, assumptions=["reference: spec/Arith.tla (ISO/SWI semantics; rem = mod as documented; '/', min, max, sign, ** and ^ "
                     "compared by value only because Yap and SWI differ on the result type)",
                     "transcendental functions are not decided (TLA+ has no reals)"])
+
+
+def inspect_goals(ctx, rng):
+    from .. import terms as T
+    X, Y, Z = T.V(1), T.V(2), T.V(3)
+    terms = [T.A("a"), T.A("foo"), T.I(0), T.I(3), T.I(-2), T.F(6), T.Cm("f", T.A("a")), T.Cm("f", T.A("a"), T.A("b")),
+             T.Cm("g", T.V(4), T.I(1), T.Cm("f", T.A("c"))), T.L([T.A("a"), T.A("b"), T.A("c")]), T.L([]), T.L([T.I(1)]),
+             T.L([T.A("a")], T.V(5)), X]
+    ints = [T.I(v) for v in (-1, 0, 1, 2, 3, 4)]
+    G = []
+    for t in terms:
+        for nm in ("var", "nonvar", "atom", "atomic", "number", "integer", "float", "compound", "callable", "is_list", "ground"):
+            G.append(T.Cm(nm, t))
+        G.append(T.Cm("functor", t, Y, Z))
+        G.append(T.Cm("functor", t, T.A("f"), Z))
+        G.append(T.Cm("functor", t, Y, T.I(2)))
+        G.append(T.Cm("=..", t, Y))
+        G.append(T.Cm("length", t, Y))
+        for n in ints + [Y]:
+            G.append(T.Cm("arg", n, t, Z))
+        G.append(T.Cm("arg", T.I(1), t, T.A("a")))
+    for nm in (T.A("f"), T.A("foo"), T.I(3)):
+        for a in ints:
+            G.append(T.Cm("functor", X, nm, a))
+    for l in (T.L([T.A("f"), T.A("a"), T.A("b")]), T.L([T.A("a")]), T.L([T.I(3)]), T.L([T.A("g"), T.V(4)])):
+        G.append(T.Cm("=..", X, l))
+    for n in ints:
+        G.append(T.Cm("length", X, n))
+        G.append(T.Cm("succ", n, Y))
+        G.append(T.Cm("succ", X, n))
+        for m in ints[1:4]:
+            G.append(T.Cm("plus", n, m, Z))
+            G.append(T.Cm("plus", n, Y, m))
+            G.append(T.Cm("plus", X, n, m))
+            G.append(T.Cm("succ", n, m))
+    return G
+
+
+def run_inspect(ctx):
+    """term-inspection builtins and integer relations, judged by spec/Inspect.tla (via JudgeSLD, mode 'builtin')"""
+    from .. import terms as T
+    rng = random.Random(ctx.seed + 1617)
+    G = inspect_goals(ctx, rng)
+    cases = [{"id": i, "text": "", "query": T.render(g)} for i, g in enumerate(G)]
+    chunk = 60
+    res = pl.run_jobs([("det_queries", {"cases": cases[i:i + chunk]}) for i in range(0, len(cases), chunk)],
+                      nproc=ctx.nproc, timeout=300, chunksize=1)
+    outs = {}
+    for r in res:
+        if r.get("error"):
+            raise tlc.MachineryError("det_queries failed: %s" % r)
+        for o in r["results"]:
+            outs[o["id"]] = o
+    send = []
+    for i, g in enumerate(G):
+        o = outs[i]
+        ctx.evaluations += 1
+        name = T.txt(g["c"]) + "/%d" % len(g["a"])
+        if o.get("crash"):
+            ctx.violation({"clause": "crash", "error": o.get("error", ""), "site": o.get("site", ""), "functor": name},
+                          "?- %s : %s" % (T.render(g), o["crash"]), {"goal": g})
+            continue
+        if o["ok"] == 2 and o.get("err") == "CallModeError":
+            continue          # the implementation declares this call mode unsupported ('for their supported modes')
+        send.append({"id": i, "prog": [], "q": g, "mode": "builtin", "impl": {"ok": o["ok"], "ans": o["ans"]}})
+    J = tlc.judge_batch("JudgeSLD", send, nproc=ctx.nproc, tag="c16b")
+    judged = 0
+    for c in send:
+        j = J[c["id"]]
+        g = G[c["id"]]
+        name = T.txt(g["c"]) + "/%d" % len(g["a"])
+        if j["skipped"]:
+            continue
+        judged += 1
+        if not j["ok"]:
+            ctx.violation({"clause": "builtin-" + j["why"], "functor": name},
+                          "?- %s : %s\nimplementation: %s %s\nexpected (Inspect.tla): %s" % (
+                              T.render(g), j["why"], c["impl"]["ok"], [T.render(a) for a in c["impl"]["ans"]],
+                              [T.render(a) for a in j["exp"]]), {"goal": g})
+    return len(G), judged
 
 
 def functor_of(c, exprs, cmps, off):
@@ -148,6 +232,22 @@ def functor_of(c, exprs, cmps, off):
 def replay(ctx, path):
     with open(path) as f:
         d = json.load(f)
+    if "goal" in d["case"]:
+        from .. import terms as T
+        g = d["case"]["goal"]
+        o = pl.run_local("det_queries", cases=[{"id": 0, "text": "", "query": T.render(g)}])["results"][0]
+        print(T.render(g), o)
+        ctx.evaluations = 1
+        if o.get("crash"):
+            ctx.violation({"clause": "crash"}, o["crash"], d["case"])
+        else:
+            j = tlc.judge_batch("JudgeSLD", [{"id": 0, "prog": [], "q": g, "mode": "builtin",
+                                              "impl": {"ok": o["ok"], "ans": o["ans"]}}], nproc=1)[0]
+            print(j)
+            if not j["ok"]:
+                ctx.violation({"clause": "builtin-" + j["why"]}, j["why"], d["case"])
+        ctx.write_evidence("exploration", {"evaluations": 1, "distinct_nontrivial": 0, "rule": "replay", "samples": [d["case"]]})
+        return
     c = dict(d["case"]["case"])
     c["id"] = 0
     o = pl.run_local("arith_cases", cases=[c])["results"][0]
